@@ -11,7 +11,7 @@ FLOAT_KINDS = {'refine-op', 'refine-helper'}      # float-mode companion (core.f
 FLOAT_TOL = 1e-8
 STATS = G.STATS
 PARTIAL = [
-    "A5.4 as coded is now MODELLED (refineA54 / knotRefinementA54: literal transcription of the loops of helpers.knot_refinement, run against the real function by the streams refa54 / refa54h) and PROVED equal to the specification-level model (fold of single A5.1 insertions: knot vector and control points) - for CURVE-level calls with a knot vector clamped at the start in which no value occurs more than p+1 times (general form: every basis function of the refined curve has support, SuppOk); the list-of-rows branch of the helper (`else` branch of isinstance(ctrlpts[0][0], float), what operations.refine_knotvector feeds for VOLUMES) is now MODELLED literally too (refineA54Rows / knotRefinementRows / refineVolRows, streams refine-rows / refine-vol-rows against the real helper called with rows and against operations.refine_knotvector) and PROVED: every iso-curve of A5.4 on rows is A5.4 of that iso-curve with the same knot vector (refineA54Rows_isocurve, knotRefinementRows_isocurve: only c < len(ctrlpts[0])), and one direction of refine_knotvector on a volume computed through the rows IS refineDir (refineVolRows_is_refineDir, refineVolRows_preserves_volume; hypotheses: VolWF with point dimension > 0, DirHyp, knot vector of the direction clamped at the start, no value more than p+1 times). The SURFACE branch of operations.refine_knotvector calls the helper per iso-curve (point branch) and is covered by the curve-level theorems; the object-level theorems (refineDir, refineKnotvector) remain about the specification-level model. In the rows branch the helper writes into the rows of its INPUT (new_ctrlpts[j] = ctrlpts[j] then new_ctrlpts[idx-1][idx2] = ...): the mutated input rows are never read again, so the model is value-semantic; the mutation of the caller's rows is not modelled (operations.refine_knotvector builds fresh rows)",
+    "A5.4 as coded is now MODELLED (refineA54 / knotRefinementA54: literal transcription of the loops of helpers.knot_refinement, run against the real function by the streams refa54 / refa54h) and PROVED equal to the specification-level model (fold of single A5.1 insertions: knot vector and control points) - for CURVE-level calls with a knot vector clamped at the start in which no value occurs more than p+1 times (general form: every basis function of the refined curve has support, SuppOk); the list-of-rows branch of the helper (`else` branch of isinstance(ctrlpts[0][0], float), what operations.refine_knotvector feeds for VOLUMES) is now MODELLED literally too (refineA54Rows / knotRefinementRows / refineVolRows, streams refine-rows / refine-vol-rows against the real helper called with rows and against operations.refine_knotvector) and PROVED: every iso-curve of A5.4 on rows is A5.4 of that iso-curve with the same knot vector (refineA54Rows_isocurve, knotRefinementRows_isocurve: only c < len(ctrlpts[0])), and one direction of refine_knotvector on a volume computed through the rows IS refineDir (refineVolRows_is_refineDir, refineVolRows_preserves_volume; hypotheses: VolWF with point dimension > 0, DirHyp, knot vector of the direction clamped at the start, no value more than p+1 times). OBJECT LEVEL: refineDirCoded / refineKnotvectorCoded (Model/KnotOpsCoded.lean: refineA54 on every iso-curve of a curve / surface with the new_kv of the LAST helper call, refineA54Rows on the gathered rows of a volume; stream refine-coded against operations.refine_knotvector) are PROVED equal to the specification-level refineDir / refineKnotvector (refineDir_as_coded_eq_model_surface / _volume, refineKnotvector_as_coded_eq_model_curve / _surface / _volume; hypotheses on the ORIGINAL object, for the selected directions only: well-formed object, DirHyp, and DirHypA54 = knot vector of the direction clamped at the start, no value more than p+1 times), hence refine_knotvector through the loops as coded preserves every point (refine_as_coded_preserves_curve / _surface / _volume; refineKnotvector_preserves_curve is the new model-level theorem for curve OBJECTS). In the rows branch the helper writes into the rows of its INPUT (new_ctrlpts[j] = ctrlpts[j] then new_ctrlpts[idx-1][idx2] = ...): the mutated input rows are never read again, so the model is value-semantic; the mutation of the caller's rows is not modelled (operations.refine_knotvector builds fresh rows)",
     "the theorems about refineA54 need: X non-empty, sorted, inside [U_p, U_n), old knots and X tolerance separated, final multiplicities <= p (all satisfied by the list X the code computes: genX_hyps); for other X (e.g. a knot raised above multiplicity p) nothing is proved",
     "curves, surfaces and volumes (helper level; refineDir in every direction of a surface / volume; refine_knotvector on any subset of the two / three directions: refineKnotvector_preserves_surface, refineDir_preserves_volume, refineKnotvector_preserves_volume) are proved end-to-end under explicit hypotheses: well-formed object (CurveWF / SurfWF / VolWF), knot vector clamped at the END of each refined direction, 0 <= tol and tolerance separation of the old knots and the bisection knots of each refined direction (equal or further apart than tol), all stated on the ORIGINAL object",
     "rational objects: the theorems are about the homogeneous net (coordinatewise); the projection step is C01/C09's",
@@ -32,6 +32,11 @@ def gen(rng, tier):
         G.count('density', dens)
         line = "ops %s %s F %s" % (KO.KIND[d['kind']], S.args(d), ",".join(map(str, dens)))
         out.append(Case('refine-op', line, dict(shape=d, dens=dens)))
+        # the same call against the object-level model built from A5.4 AS CODED (`refineKnotvectorCoded`: refineA54 on
+        # every iso-curve of a curve / surface, new_kv of the last helper call; refineA54Rows on cpt2d for a volume)
+        G.count('refine_coded', d['kind'])
+        out.append(Case('refine-coded', "refc %s %s %s" % (KO.KIND[d['kind']], S.args(d), ",".join(map(str, dens))),
+                        dict(shape=d, dens=dens)))
     # helper level: explicit knot_list / add_knot_list (single element, last span only, duplicates of
     # existing knots, values repeated in both lists)
     for _ in range(30 if tier == 'quick' else 400):
@@ -244,6 +249,8 @@ def oracle(c):
     dens = c.data['dens']
     if c.kind == 'refine-a54':
         return None          # the oracle runs on the twin 'refine-helper' case
+    if c.kind == 'refine-coded':
+        return None          # the oracle runs on the twin 'refine-op' case
     if c.kind == 'refine-helper':
         p, kv, n_ = d['p'], d['kv'], d['n']
         base = list(c.data['kl']) if c.data['kl'] is not None else kv[p:len(kv) - p]
